@@ -51,6 +51,8 @@ def legacy_specs(P: str = "G", runtime_only: bool = False) -> list[CS]:
         # is one in the base class)
         CS(f"{P}Lbl", (N,), [FS("label", "prop", "str", "str", default='""'), FS("kid", "child", f"{N} | None", "opt", (N,), default="None"), FS("more", "child", f"tuple[{N}, ...]", "tuple", (N,), default="()")]),
         CS(f"{P}FixedLbl", (f"{P}Lbl",), [FS("label", "prop", "str", "str", init=False, default='"fixed"')]),
+        # a field whose annotation admits a node or a scalar and that holds the scalar (a property by its value)
+        CS(f"{P}UnionLbl", (N,), [FS("label", "prop", f"{P}Leaf | str", "str", default='""'), FS("kid", "child", f"{N} | None", "opt", (N,), default="None")]),
         # keyword-only child fields (field(kw_only=True)): children like any other
         CS(f"{P}Kw", (N,), [FS("first", "child", f"{N} | None", "opt", (N,), default="None"), FS("body", "child", f"tuple[{N}, ...]", "tuple", (N,), kw_only=True, default="()"), FS("last", "child", f"{N} | None", "opt", (N,), kw_only=True, default="None"), FS("v", "prop", "int", "int", kw_only=True, default="0")]),
         CS(f"{P}Wrap", (f"{P}Leaf",), [FS("inner", "child", f"{N} | None", "opt", (N,), default="None")]),
